@@ -87,7 +87,7 @@ def run(ck):
             continue
         ms = outs.get(c["id"])
         deterministic = ms is None or (len(ms) == 1 and ms[0]["k"] != "excluded")
-        drop = ("recovered", "g") if (a.get("k") == "runtime_error" and c06.order_dependent(p)) else ("recovered",)
+        drop = ("recovered", "g", "msg") if (a.get("k") == "runtime_error" and c06.order_dependent(p)) else ("recovered",)
         key = lambda x: json.dumps({k: v for k, v in x.items() if k not in drop}, sort_keys=True)
         if deterministic:
             if key(a) != key(b):
